@@ -164,6 +164,17 @@ def rule_H4(ctx):
                loc=il.loc())
     else:
         r.ok('intle2bitstore', {'instance': 'intle2bitstore', 'byte_order_ops': 1})
+    # ... applied to the caller's own (value, length, signed): the wrapper does not change them before delegating, so the
+    # range check of the big-endian encoder is the one in force for the little-endian form too
+    rebound = [x for x in own_walk(il.node) if (isinstance(x, ast.Assign) and any(isinstance(t, ast.Name) and t.id in il.params() for t in x.targets)
+                                                  and not (isinstance(x.value, ast.Call) and isinstance(x.value.func, ast.Name) and x.value.func.id == 'int'
+                                                           and len(x.value.args) == 1 and ast.unparse(x.value.args[0]) == ast.unparse(x.targets[0])))
+               or (isinstance(x, ast.AugAssign) and isinstance(x.target, ast.Name) and x.target.id in il.params())]
+    if rebound:
+        r.fail(il.key, rebound[0], 'the little-endian encoder changes its value/length/signed parameters before handing them to int2bitstore: the '
+               "big-endian encoder's range check no longer sees what the caller asked for", loc=il.loc(rebound[0]), extra={'props': ['C02', 'C15', 'C18']})
+    else:
+        r.ok('intle2bitstore parameters forwarded unchanged')
     # float setters: be -> big_endian True, le -> False
     for nm, want in (('_setfloatbe', 'True'), ('_setfloatle', 'False')):
         f = m.classes['Bits'].methods.get(nm)
